@@ -1038,8 +1038,8 @@ def family_reject():
         (['C06'], 'a defined type whose underlying type is provided', 'MyA', 'NewA, NeedsMyA'),
         (['C09'], 'struct provider "*" with two fields of identical type', 'Twin', 'NewA, wire.Struct(new(Twin), "*")'),
         (['C09'], 'struct provider naming two fields of identical type', 'Twin', 'NewA, wire.Struct(new(Twin), "X", "Y")'),
-        (['C09'], 'provider whose third result is a concrete type implementing error', 'A', 'NewAMyErr'),
-        (['C09'], 'provider whose second result is a concrete type implementing error', 'A', 'NewAMyErr2'),
+        (['C09'], 'provider whose third result is a concrete type implementing error', '(A, func(), error)', 'NewAMyErr'),
+        (['C09'], 'provider whose second result is a concrete type implementing error', '(A, error)', 'NewAMyErr2'),
         (['C09', 'C20'], 'injector without results', '', 'NewA'),
         (['C09', 'C20'], 'injector without results and with a parameter', '', 'NewB', 'a A'),
         # the same source reached twice / sibling sets, through every way the front end merges sets
